@@ -66,6 +66,18 @@ def install_observers():
     B.refine = refine
     LogUtility.log_debug = log_debug
     B._verif_wrapped = True
+    # divergence guard (deterministic, not a wall clock): the automatic split/extend decision of the extend-split strategy looks for
+    # a parent scheme that contributes points to the area by lowering `coarsening` in a `while True` loop; when no scheme ever does
+    # (observed with boundary points off) the loop never ends and every round costs four times the previous one. Six levels beyond
+    # lmax the history is handed to the run's owner: the evaluation never comes back, whatever the machine
+    from sparseSpACE.spatiallyAdaptiveExtendSplit import SpatiallyAdaptiveExtendScheme as E
+    orig_flex = E.evaluate_operation_area_complete_flexibel
+
+    def evaluate_operation_area_complete_flexibel(self, area, coarsening, *a, **k):
+        if coarsening < -6 and _Obs.cur is not None:
+            _Obs.cur.on_divergence(self, coarsening)
+        return orig_flex(self, area, coarsening, *a, **k)
+    E.evaluate_operation_area_complete_flexibel = evaluate_operation_area_complete_flexibel
 
 
 # ------------------------------------------------------------------ configuration generator
@@ -332,6 +344,16 @@ class DimwiseSim:
         self.ctx.state(self.structure_key())
         for m in self.monitors:
             m.post_refine(self)
+
+    def on_divergence(self, sa, coarsening):
+        from simcore.ctx import Excluded
+        self.ctx.probe("parent_estimate_loop_diverging")
+        if getattr(self, "divergence_is_violation", False):
+            self.ctx.violate("refinement_step_terminates", {"strategy": "extend_split", "automatic": bool(self.cfg.get("automatic")), "boundary": bool(self.cfg.get("boundary")),
+                                                            "function": "get_parent_split_operation"},
+                             "the parent estimate of the automatic split/extend decision lowers its coarsening value without end (now %d): no parent scheme "
+                             "contributes a point to the area, the loop has no other exit - the refinement step, hence the run, never returns" % coarsening)
+        raise Excluded("parent estimate of the automatic decision does not terminate (known finding of C13)")
 
     def on_log(self, what):
         self.ctx.probe(what)
